@@ -7,6 +7,7 @@ mod c07;
 mod c08;
 mod c09;
 mod c10;
+mod c11;
 mod c20;
 mod reftest;
 
@@ -53,6 +54,7 @@ fn main() {
         "C08" => c08::run(report),
         "C09" => c09::run(report),
         "C10" => c10::run(report),
+        "C11" => c11::run(report),
         "C20" => c20::run(report),
         _ => {
             eprintln!("unknown property {id}");
